@@ -27,4 +27,15 @@ def satAdd (a b : Nat) : Nat := Nat.min (a + b) U64MAX
 /-- `u64::wrapping_add` -/
 def wrapAdd (a b : Nat) : Nat := (a + b) % (U64MAX + 1)
 
+/-! ### abstract syntax for the derive macros' decisions (C19) -/
+
+/-- a path segment's identifier, as far as the macro looks at it: is it the identifier `Result` -/
+inductive Ident | result | other
+  deriving DecidableEq, Repr
+
+/-- a handler's declared return type, as far as the macro looks at it: a path type (its segments) or
+    anything else (tuple, reference, array, impl Trait, ...) -/
+inductive RetTy | path (segs : List Ident) | other
+  deriving DecidableEq, Repr
+
 end Rsactor
